@@ -32,6 +32,9 @@ type C01Case struct {
 	AfterBdat bool `json:"after_bdat,omitempty"`
 	// Debug: Server.Debug is set - a copy of the traffic goes to a writer, the traffic itself is unchanged
 	Debug bool `json:"debug,omitempty"`
+	// WithErr: the connection returns its last octets TOGETHER with io.EOF in one Read (n > 0 and an error, which
+	// io.Reader allows and crypto/tls does when a close_notify is already waiting behind the data)
+	WithErr bool `json:"with_err,omitempty"`
 }
 
 type segReader struct {
@@ -112,7 +115,7 @@ func evalC01(c C01Case) (f *h.Finding) {
 		for _, k := range c.Cuts {
 			cuts = append(cuts, len(prologue)+k)
 		}
-		cfg := h.Config{MaxMessageBytes: c.Limit, MaxLineLength: c.LineMax, Debug: c.Debug}
+		cfg := h.Config{MaxMessageBytes: c.Limit, MaxLineLength: c.LineMax, Debug: c.Debug, FinalWithErr: c.WithErr}
 		if c.Slow {
 			cfg.ReadTO, cfg.WriteTO, cfg.PeerPause = 30*time.Minute, 10*time.Second, true
 		}
@@ -216,7 +219,7 @@ func C01(tier string) int {
 		limits = []int64{0, 1 << 20}
 		allSegUpTo = 7
 	}
-	run.Rule = fmt.Sprintf("every octet stream body+CRLF.CRLF+tail and .CRLF+tail with body over the class alphabet {'.',CR,LF,'a'} of length<=%d (reader seam) / <=%d (full server path), each x segmentations {one segment, one octet per segment, every 2-split%s} x backend read sizes %v x size limit {none, exactly the message size (bodies <= 8)}; distinct by construction (enumeration), non-trivial = body contains '.', CR or LF. Plus (full server path) lines of exactly the maximal permitted length, 1 and 5 less, behind/in front of other lines with the segment boundary at EVERY position (MaxLineLength 32; default 2000 with the line's CR at octets 4094..4098 of the connection, i.e. around the server's read-buffer boundary), and all bodies <=4 from a SLOW peer (40 s virtual pause before every segment, WriteTimeout 10 s, ReadTimeout 30 min; the scripted connection honours the armed read deadline). All bodies <=5 once more as the SECOND message of the connection, behind a chunked one, under a size limit that each message fits but not both together. All bodies <=4 over {NUL, ESC, DEL, '.', CR, LF} with Server.Debug set (the traffic is copied to a writer). Oracle: ref.Unstuff. Random 256-octet streams are a labelled supplement (counters.random_supplement) and not part of 'exhaustive'.",
+	run.Rule = fmt.Sprintf("every octet stream body+CRLF.CRLF+tail and .CRLF+tail with body over the class alphabet {'.',CR,LF,'a'} of length<=%d (reader seam) / <=%d (full server path), each x segmentations {one segment, one octet per segment, every 2-split%s} x backend read sizes %v x size limit {none, exactly the message size (bodies <= 8)}; distinct by construction (enumeration), non-trivial = body contains '.', CR or LF. Plus (full server path) lines of exactly the maximal permitted length, 1 and 5 less, behind/in front of other lines with the segment boundary at EVERY position (MaxLineLength 32; default 2000 with the line's CR at octets 4094..4098 of the connection, i.e. around the server's read-buffer boundary), and all bodies <=4 from a SLOW peer (40 s virtual pause before every segment, WriteTimeout 10 s, ReadTimeout 30 min; the scripted connection honours the armed read deadline). All bodies <=5 once more as the SECOND message of the connection, behind a chunked one, under a size limit that each message fits but not both together. All bodies <=4 over {NUL, ESC, DEL, '.', CR, LF} with Server.Debug set (the traffic is copied to a writer). All bodies <=5 with the end of the message and the end of the connection delivered by ONE Read (n > 0 together with io.EOF, as crypto/tls does for a waiting close_notify) x {everything in one read, message in its own read, last 1..6 octets in the last read}. Oracle: ref.Unstuff. Random 256-octet streams are a labelled supplement (counters.random_supplement) and not part of 'exhaustive'.",
 		L, LS, map[bool]string{true: fmt.Sprintf(", all 2^(n-1) segmentations for streams of <=%d+5 octets", allSegUpTo), false: ""}[allSegUpTo > 0], bufs)
 	run.Assumptions = []string{
 		"the reader branches only on '.', CR, LF vs. any other octet, so one representative 'a' stands for the 253 other octets (the random supplement exercises all 256 values)",
@@ -400,6 +403,16 @@ func C01(tier string) int {
 	enumStrings([]byte{0, 0x1b, 0x7f, '.', '\r', '\n'}, 4, func(b []byte) {
 		stream := mk(b)
 		lcases = append(lcases, C01Case{Seam: "server", Stream: stream, Buf: 4096, Debug: true}, C01Case{Seam: "server", Stream: stream, Buf: 3, Debug: true, Cuts: perOctetCuts(len(stream))})
+	})
+	// the end of the message arrives together with the end of the connection (one Read returns both): all bodies <=5
+	// over {x, '.', CR, LF} x {whole conversation in one read, message in its own read, last 1..6 octets in the last read}
+	enumStrings([]byte{'x', '.', '\r', '\n'}, 5, func(b []byte) {
+		stream := mk(b)
+		stream = stream[:len(stream)-len(tail)] // the client hangs up right behind the end marker
+		lcases = append(lcases, C01Case{Seam: "server", Stream: stream, Buf: 4096, WithErr: true}, C01Case{Seam: "server", Stream: stream, Buf: 2, WithErr: true, Cuts: []int{0}})
+		for k := 1; k <= 6 && k < len(stream); k++ {
+			lcases = append(lcases, C01Case{Seam: "server", Stream: stream, Buf: 4096, WithErr: true, Cuts: []int{len(stream) - k}})
+		}
 	})
 	run.Counter("max_length_line_and_slow_peer_cases", int64(len(lcases)))
 	h.ParallelFor(len(lcases), func(i int) {
